@@ -46,7 +46,10 @@ type Op struct {
 	RemoteOK bool       `json:"remote_ok"`
 	Batch    []BatchMsg `json:"batch,omitempty"`
 	Flags    string     `json:"flags,omitempty"` // append: flag list, e.g. `\\Seen \\Deleted`
-	Names    []string   `json:"names,omitempty"` // statecreate: mailboxes announced through connector.IMAPStateWrite.CreateMailbox
+	Names    []string   `json:"names,omitempty"` // statecreate: mailboxes announced through connector.IMAPStateWrite.CreateMailbox; connupdate: the announced mailboxes
+	// connupdate: the connector sends MessageUpdated for the message at Name / UIDs[0], announcing the mailboxes Names and
+	// the flags Flags; Replace = with another literal (Lit), otherwise with the literal the message has
+	Replace bool `json:"replace,omitempty"`
 	Sess     int        `json:"sess,omitempty"`
 }
 
@@ -86,6 +89,16 @@ func (o Op) String() string {
 		return fmt.Sprintf("statecreate(%s)", strings.Join(o.Names, "+"))
 	case "connremsg":
 		return "connremsg(last batch again)"
+	case "connupdate":
+		u := 0
+		if len(o.UIDs) > 0 {
+			u = o.UIDs[0]
+		}
+		what := "same-literal"
+		if o.Replace {
+			what = fmt.Sprintf("new-literal-L%d", o.Lit)
+		}
+		return fmt.Sprintf("connupdate(%s:%d,%s,(%s)>%s)", o.Name, u, what, o.Flags, strings.Join(o.Names, "+"))
 	case "connmsgs":
 		var p []string
 		for _, b := range o.Batch {
@@ -105,6 +118,11 @@ type Obs struct {
 	SetLens [2]int `json:"set_lens,omitempty"`
 	// ModelOps: what the operation is for the model (nil: itself; empty: nothing - it restates what exists)
 	ModelOps []Op `json:"-"`
+	// connupdate: the mailboxes that held the message before the update (rows with the same X-Pm-Gluon-Id), the literal
+	// it had, and whether the update was sent at all (the remote message of a row cannot always be told)
+	Holders []string `json:"holders,omitempty"`
+	OldLit  int      `json:"old_lit,omitempty"`
+	Skipped bool     `json:"skipped,omitempty"`
 }
 
 type Row struct {
@@ -695,6 +713,8 @@ func (w *World) Do(o Op) (Obs, error) {
 			return Obs{}, fmt.Errorf("%s: no acknowledgement", o)
 		}
 		return Obs{Class: limitClass(err), Text: fmt.Sprint(err), ModelOps: []Op{}}, nil
+	case "connupdate":
+		return w.connUpdate(o)
 	case "connrestate":
 		// the connector announces a mailbox gluon already knows (same remote ID)
 		id, ok := w.mboxID(o.Name)
@@ -756,6 +776,119 @@ var (
 	reList   = regexp.MustCompile(`^\* LIST \(([^)]*)\) "[^"]*" (.*)$`)
 	reStatus = regexp.MustCompile(`MESSAGES (\d+) UIDNEXT (\d+) UIDVALIDITY (\d+)`)
 )
+
+var reGluonIDVal = regexp.MustCompile(`(?i)^X-Pm-Gluon-Id: ([^\r\n]*)\r\n`)
+
+func gluonID(raw []byte) string {
+	if m := reGluonIDVal.FindSubmatch(raw); m != nil {
+		return string(m[1])
+	}
+	return ""
+}
+
+// connUpdate: the connector sends imap.MessageUpdated for the message found at o.Name / o.UIDs[0].
+// The remote message of that row is the one whose literal carries the row's X-Pm-Gluon-Id (messages gluon sent to the
+// remote), or - for messages the connector created - the only remote message of that mailbox with these bytes, provided
+// the mailbox has only one such row; otherwise nothing is sent (Skipped).
+func (w *World) connUpdate(o Op) (Obs, error) {
+	skip := func(why string) (Obs, error) {
+		return Obs{Class: "ok", Text: "not sent: " + why, Skipped: true, ModelOps: []Op{}}, nil
+	}
+	if len(o.UIDs) != 1 {
+		return skip("no UID")
+	}
+	d, err := w.DumpAll()
+	if err != nil {
+		return Obs{}, err
+	}
+	mb := d.Get(o.Name)
+	mid, ok := w.mboxID(o.Name)
+	if mb == nil || !ok {
+		return skip("no such mailbox")
+	}
+	var row *Row
+	for i := range mb.Rows {
+		if mb.Rows[i].UID == o.UIDs[0] {
+			row = &mb.Rows[i]
+		}
+	}
+	if row == nil || row.Lit < 0 {
+		return skip("no such message")
+	}
+	gid := gluonID(row.Raw)
+	if gid == "" {
+		return skip("no X-Pm-Gluon-Id in the literal")
+	}
+	cands := w.Conn.MessagesWhere(mid, func(l []byte) bool { return bytes.Equal(l, row.Raw) })
+	if len(cands) != 1 {
+		stripped := reGluonID.ReplaceAll(row.Raw, nil)
+		same := 0
+		for _, r := range mb.Rows {
+			if r.Lit == row.Lit {
+				same++
+			}
+		}
+		cands = w.Conn.MessagesWhere(mid, func(l []byte) bool { return bytes.Equal(reGluonID.ReplaceAll(l, nil), stripped) })
+		if len(cands) != 1 || same != 1 {
+			return skip("the remote message of the row cannot be told")
+		}
+	}
+	remoteID := cands[0]
+	var holders []string
+	for _, m := range d.Mboxes {
+		for _, r := range m.Rows {
+			if gluonID(r.Raw) == gid {
+				holders = append(holders, m.Name)
+				break
+			}
+		}
+	}
+	for _, h := range holders {
+		if strings.EqualFold(h, RecoveryName) {
+			return skip("the message is also in the recovery mailbox")
+		}
+	}
+	oldLit, _, date, _ := w.Conn.MessageInfo(remoteID)
+	var ids []imap.MailboxID
+	for _, n := range o.Names {
+		id, ok := w.mboxID(n)
+		if !ok {
+			id = imap.MailboxID("unknown-" + n)
+		}
+		ids = append(ids, id)
+	}
+	lit := oldLit
+	model := o
+	if o.Replace {
+		lit = w.Lits.Bytes[o.Lit]
+		if o.Lit == row.Lit {
+			model.Replace = false // the same bytes: gluon finds nothing changed
+		}
+	}
+	pm, err := imap.NewParsedMessage(lit)
+	if err != nil {
+		return Obs{}, err
+	}
+	flags := imap.NewFlagSet()
+	for _, f := range strings.Fields(o.Flags) {
+		flags.AddToSelf(f)
+	}
+	if date.IsZero() {
+		date = time.Unix(1700000000, 0)
+	}
+	err, acked := w.Conn.Push(imap.NewMessageUpdated(imap.Message{ID: remoteID, Flags: flags, Date: date}, lit, ids, pm, false), 60*time.Second)
+	if !acked {
+		return Obs{}, fmt.Errorf("%s: no acknowledgement", o)
+	}
+	if err == nil {
+		var nl []byte
+		if model.Replace {
+			nl = lit
+		}
+		w.Conn.SetMessage(remoteID, nl, flags, ids)
+	}
+	return Obs{Class: limitClass(err), Text: fmt.Sprint(err), Holders: holders, OldLit: row.Lit, ModelOps: []Op{model}}, nil
+}
 
 func unquote(s string) string {
 	if len(s) >= 2 && s[0] == '"' && s[len(s)-1] == '"' {
